@@ -11,7 +11,8 @@ pub fn child(_a: &Args) -> i32 {
 
 struct Built {
     db: abyssiniandb::filedb::FileDb,
-    map: abyssiniandb::filedb::FileDbMapDbBytes,
+    /// None while every handle of the map is dropped (the database object keeps the map open)
+    map_opt: Option<abyssiniandb::filedb::FileDbMapDbBytes>,
     /// clean maps of other key types in the same database (visited after the bytes map by a database-level sync)
     _side: (abyssiniandb::filedb::FileDbMapDbString, abyssiniandb::filedb::FileDbMapDbVu64),
     model: Model,
@@ -65,7 +66,16 @@ fn build(dir: &Path, shape: u32, seed: u64) -> Result<Built, String> {
             model.remove(k);
         }
     }
-    Ok(Built { db, map, model, keys, _side: (side_s, side_v) })
+    Ok(Built { db, map_opt: Some(map), model, keys, _side: (side_s, side_v) })
+}
+
+impl Built {
+    fn map(&mut self) -> &mut abyssiniandb::filedb::FileDbMapDbBytes {
+        if self.map_opt.is_none() {
+            self.map_opt = Some(self.db.db_map_bytes("m").expect("the open map is handed out again"));
+        }
+        self.map_opt.as_mut().unwrap()
+    }
 }
 
 fn disk_len(dir: &Path, ext: &str) -> u64 {
@@ -154,22 +164,38 @@ fn snapshot_equals_model(dir: &Path, snap: &Path, model: &Model) -> Result<(), S
     }
 }
 
-fn one_threshold(a: &Args, shape: u32, seed: u64, t: u64, kind: u32, between: u32, retry_flush: bool, ctx: &mut Ctx) -> Result<bool, String> {
+fn one_threshold(a: &Args, shape: u32, seed: u64, t: u64, kind: u32, between: u32, retry_flush: bool, variant: u32, ctx: &mut Ctx) -> Result<bool, String> {
     let dir = a.scratch.join("c16");
     let snap = a.scratch.join("c16snap");
     let mut b = build(&dir, shape, seed).map_err(|e| format!("HARNESS build: {e}"))?;
     let kind_name = ["flush", "sync_all", "sync_data", "db_sync_all", "db_sync_data"][kind as usize % 5];
     hooks::record_io_events(true);
     let _ = hooks::take_io_events();
+    // variant 1: an iterator over the map is alive (created, advanced once) during the failing call; it is not advanced
+    // again and is dropped when the case ends. variant 2 (database-level calls): every handle of the map is dropped
+    // before the call - the database object still holds the map and its unsaved updates.
+    let live_iter = if variant == 1 {
+        use abyssiniandb::DbMap;
+        let mut it = b.map().iter();
+        let _ = it.next();
+        ctx.count("fault_with_live_iterator", 1);
+        Some(it)
+    } else {
+        None
+    };
+    if variant == 2 && kind % 5 >= 3 {
+        b.map_opt = None;
+        ctx.count("fault_with_all_handles_dropped", 1);
+    }
     // ---- the fault: soft limit down, call, (reads), limit up
     if !crate::sys::set_fsize_soft(t) {
         hooks::record_io_events(false);
         return Err("HARNESS setrlimit failed".into());
     }
     let r = guarded(crate::session::STEP_BUDGET_BASE, || match kind % 5 {
-        0 => b.map.flush(),
-        1 => b.map.sync_all(),
-        2 => b.map.sync_data(),
+        0 => b.map().flush(),
+        1 => b.map().sync_all(),
+        2 => b.map().sync_data(),
         3 => b.db.sync_all(),
         _ => b.db.sync_data(),
     });
@@ -178,8 +204,9 @@ fn one_threshold(a: &Args, shape: u32, seed: u64, t: u64, kind: u32, between: u3
     let mut reads_ok = 0u64;
     let mut reads_err = 0u64;
     let mut wrong: Option<String> = None;
-    for k in b.keys.iter().step_by(3) {
-        let rr = guarded(crate::session::STEP_BUDGET_BASE, || b.map.get(&k[..]));
+    let keys_copy = b.keys.clone();
+    for k in keys_copy.iter().step_by(3) {
+        let rr = guarded(crate::session::STEP_BUDGET_BASE, || b.map().get(&k[..]));
         match rr {
             Guard::Ok(Ok(v)) => {
                 reads_ok += 1;
@@ -238,8 +265,8 @@ fn one_threshold(a: &Args, shape: u32, seed: u64, t: u64, kind: u32, between: u3
         ctx.count("thresholds_without_refusal", 1);
     }
     // ---- the condition is lifted: the in-memory view is fully correct
-    for k in b.keys.iter() {
-        match guarded(crate::session::STEP_BUDGET_BASE, || b.map.get(&k[..])) {
+    for k in keys_copy.iter() {
+        match guarded(crate::session::STEP_BUDGET_BASE, || b.map().get(&k[..])) {
             Guard::Ok(Ok(v)) if v == b.model.get(k).cloned() => {}
             Guard::Ok(Ok(_)) => {
                 hooks::record_io_events(false);
@@ -255,7 +282,7 @@ fn one_threshold(a: &Args, shape: u32, seed: u64, t: u64, kind: u32, between: u3
             }
         }
     }
-    match guarded(crate::session::STEP_BUDGET_BASE, || b.map.len()) {
+    match guarded(crate::session::STEP_BUDGET_BASE, || b.map().len()) {
         Guard::Ok(Ok(l)) if l == b.model.len() as u64 => {}
         other => {
             hooks::record_io_events(false);
@@ -269,9 +296,9 @@ fn one_threshold(a: &Args, shape: u32, seed: u64, t: u64, kind: u32, between: u3
         if let Some(k) = victim {
             let rr = guarded(crate::session::STEP_BUDGET_BASE, || -> std::io::Result<()> {
                 if between == 1 {
-                    b.map.delete(&k[..]).map(|_| ())
+                    b.map().delete(&k[..]).map(|_| ())
                 } else {
-                    b.map.put(&k[..], &crate::util::gen_bytes(2222, 5, 0))
+                    b.map().put(&k[..], &crate::util::gen_bytes(2222, 5, 0))
                 }
             });
             match rr {
@@ -295,7 +322,7 @@ fn one_threshold(a: &Args, shape: u32, seed: u64, t: u64, kind: u32, between: u3
         }
     }
     let _ = hooks::take_io_events();
-    let r1 = guarded(crate::session::STEP_BUDGET_BASE, || if retry_flush { b.map.flush() } else { b.map.sync_data() });
+    let r1 = guarded(crate::session::STEP_BUDGET_BASE, || if retry_flush { b.map().flush() } else { b.map().sync_data() });
     let _ = hooks::take_io_events();
     match r1 {
         Guard::Ok(Ok(())) => {}
@@ -313,13 +340,13 @@ fn one_threshold(a: &Args, shape: u32, seed: u64, t: u64, kind: u32, between: u3
         return Err(if m.starts_with("HARNESS") { m } else { format!("{ctxs} once the limit is lifted a flush returns Ok, but {m}") });
     }
     // a few more updates and another flush: everything durable again, every file flushed
-    for (i, k) in b.keys.iter().enumerate().take(5) {
+    for (i, k) in keys_copy.iter().enumerate().take(5) {
         let v = crate::util::gen_bytes(33 + i, 7000 + i as u32, 0);
-        b.map.put(&k[..], &v).map_err(|e| format!("{ctxs} put after the fault: {e}"))?;
+        b.map().put(&k[..], &v).map_err(|e| format!("{ctxs} put after the fault: {e}"))?;
         b.model.insert(k.clone(), v);
     }
     let _ = hooks::take_io_events();
-    let r2 = guarded(crate::session::STEP_BUDGET_BASE, || b.map.flush());
+    let r2 = guarded(crate::session::STEP_BUDGET_BASE, || b.map().flush());
     let ev2 = hooks::take_io_events();
     hooks::record_io_events(false);
     match r2 {
@@ -336,6 +363,7 @@ fn one_threshold(a: &Args, shape: u32, seed: u64, t: u64, kind: u32, between: u3
         return Err(if m.starts_with("HARNESS") { m } else { format!("{ctxs} after further updates and a successful flush {m}") });
     }
     ctx.count("recoveries_verified", 1);
+    drop(live_iter);
     drop(b);
     let _ = std::fs::remove_dir_all(&dir);
     Ok(refused_any)
@@ -364,13 +392,17 @@ pub fn run(a: &Args) -> Ctx {
           for kind in 0..5u32 {
             for between in 0..3u32 {
               for retry_flush in [true, false] {
+               for variant in 0..3u32 {
+                if variant == 2 && kind < 3 {
+                    continue;
+                }
             job += 1;
             if job % a.nshards != a.shard {
                 continue;
             }
             ctx.evaluations += 1;
             ctx.digests.insert(((shape as u64) << 48) | t);
-            let r = one_threshold(a, shape, seed, t, kind, between, retry_flush, &mut ctx);
+            let r = one_threshold(a, shape, seed, t, kind, between, retry_flush, variant, &mut ctx);
             crate::sys::set_fsize_soft(crate::sys::RLIM_INFINITY);
             if ctx.samples.len() < 3 && (job / a.nshards) % 97 == 1 {
                 let mut s = J::obj();
@@ -403,6 +435,7 @@ pub fn run(a: &Args) -> Ctx {
                     }
                 }
             }
+               }
               }
             }
           }
